@@ -165,8 +165,29 @@ def one(case, rows, perms):
     finally:
         reg.vendors.clear()
         reg.vendors.update(orig)
+    # registration HISTORY: a fresh registry filled vendor by vendor through the public register(), with a lookup
+    # after every registration (plugins registered lazily, after somebody already asked) - the final answer must be
+    # the one a registry filled before any lookup gives.  Forward and reversed order.
+    if perms:
+        for order in (names, list(reversed(names))):
+            res["perm"].append(staged_vendor(reg, dict(orig), order, model, soft))
     res["rb"] = load_rulebooks(model, soft)
     return res
+
+
+def staged_vendor(reg, by_name, order, model, soft):
+    try:
+        fresh = type(reg)()
+        hw = HardwareView(model, soft)
+        last = None
+        for n in order:
+            fresh.register(type(by_name[n]))
+            last = fresh.match(hw, None)
+        if last is None:
+            return {"none": True}
+        return {"name": str(last.NAME)}
+    except BaseException as e:  # noqa
+        return {"exc": exc_enum(e)}
 
 
 def tables(rows):
